@@ -24,8 +24,8 @@
   `value`, `elements`, `members` are structurally recursive on a fuel argument; `accepts` hands them
   `2 * length + 4`, more than any run can use (every call consumes a character before it recurses).
 
-  `verdict` mirrors `jsonrpclib.loads`: the empty body is not handed to the parser at all
-  (`if data == "": return None` — the dispatcher then answers "no request data").
+  The empty body is malformed like any other text the grammar rejects: the dispatcher raises on it inside
+  its parse `try` before `jsonrpclib.loads` (which would return `None` for `""`) is called — fix e82f118.
 -/
 namespace JRV.JsonText
 
@@ -184,17 +184,16 @@ def accepts (cs : List Char) : Bool :=
   | none => false
   | some rest => (skipWs rest).isEmpty
 
-/-- What `jsonrpclib.loads` makes of a body, as far as the text layer decides it. -/
+/-- What the parse `try` of the dispatcher makes of a body, as far as the text layer decides it. -/
 inductive Verdict where
-  /-- `""`: not parsed, read as `None` (the dispatcher answers "no request data"). -/
-  | noData
   /-- The parser returns a value. -/
   | wellFormed
-  /-- The parser raises. -/
+  /-- An exception is raised: by the parser, or — for the empty body, which is not a JSON text either
+      (`accepts [] = false`) — by the dispatcher's own `if not data: raise ValueError`. -/
   | malformed
 deriving Repr, DecidableEq, Inhabited
 
 def verdict (cs : List Char) : Verdict :=
-  if cs.isEmpty then .noData else if accepts cs then .wellFormed else .malformed
+  if accepts cs then .wellFormed else .malformed
 
 end JRV.JsonText
